@@ -112,6 +112,8 @@ class V:
         ex, st = self.ex, self.st
         if a is b:
             return z3.BoolVal(True)
+        if a is None or b is None:
+            return z3.BoolVal(False)
         if isinstance(a, Prim) and isinstance(b, Prim):
             if a.e.sort() != b.e.sort():
                 return z3.BoolVal(False)
@@ -126,6 +128,17 @@ class V:
             return z3.BoolVal(a.s == b.s)
         if isinstance(a, FnItem) and isinstance(b, FnItem):
             return z3.BoolVal(a.text == b.text)
+        if isinstance(a, Seq) and isinstance(b, Seq):
+            if len(a.items) != len(b.items) or a.kind != b.kind:
+                return z3.BoolVal(False)
+            fs = []
+            for x, y in zip(a.items, b.items):
+                if a.kind == "map":
+                    fs.append(self.same(st.heap.get(x[0]), st.heap.get(y[0])))
+                    fs.append(self.same(st.heap.get(x[1]), st.heap.get(y[1])))
+                else:
+                    fs.append(self.same(st.heap.get(x), st.heap.get(y)))
+            return z3.And(fs) if fs else z3.BoolVal(True)
         if isinstance(a, Ref) and isinstance(b, Ref):
             return z3.BoolVal(a.cell == b.cell and a.path == b.path)
         if isinstance(a, Enum) or isinstance(b, Enum):
